@@ -1,4 +1,34 @@
 package main
 
-// Environment stubs for the command (C20); filled in by the C20 harness work.
+import "golang.org/x/tools/go/ssa"
+
+// Environment stubs for the command (C20). The stubs themselves are ordinary Go functions in the
+// in-package harness (harness/incmd): the engine only redirects the command's calls to them.
+var envRedirects = map[string]string{
+	"github.com/jessevdk/go-flags.Parse": "vxstub_flags_Parse",
+	"os.Stat":                            "vxstub_os_Stat",
+	"path/filepath.Abs":                  "vxstub_filepath_Abs",
+	"io/ioutil.ReadFile":                 "vxstub_ioutil_ReadFile",
+	"io/ioutil.ReadAll":                  "vxstub_ioutil_ReadAll",
+	"os.ReadFile":                        "vxstub_ioutil_ReadFile",
+	"io.ReadAll":                         "vxstub_ioutil_ReadAll",
+	"log.Fatalf":                         "vxstub_log_Fatalf",
+	"fmt.Printf":                         "vxstub_fmt_Printf",
+}
+
 func (i *Interp) registerEnv() {}
+
+// installRedirects activates the stubs found in the harness package (package main of the command).
+func (i *Interp) installRedirects(h *ssa.Package) {
+	if h == nil || h.Pkg.Name() != "main" {
+		return
+	}
+	for callee, stub := range envRedirects {
+		if f := h.Func(stub); f != nil {
+			if i.redirect == nil {
+				i.redirect = map[string]*ssa.Function{}
+			}
+			i.redirect[callee] = f
+		}
+	}
+}
